@@ -2019,32 +2019,25 @@ impl ConfigState {
             }
         }
 
-        for ((cluster_id, backend_id), res) in diff_map(
-            self.backends.iter().flat_map(|(cluster_id, v)| {
-                v.iter()
-                    .map(move |backend| ((cluster_id, &backend.backend_id), backend))
-            }),
-            other.backends.iter().flat_map(|(cluster_id, v)| {
-                v.iter()
-                    .map(move |backend| ((cluster_id, &backend.backend_id), backend))
-            }),
-        ) {
-            match res {
-                DiffResult::Added => {
-                    let backend = other
-                        .backends
-                        .get(cluster_id)
-                        .and_then(|v| v.iter().find(|b| &b.backend_id == backend_id))
-                        .unwrap();
-                    v.push(RequestType::AddBackend(backend.clone().to_add_backend()).into());
-                }
-                DiffResult::Removed => {
-                    let backend = self
-                        .backends
-                        .get(cluster_id)
-                        .and_then(|v| v.iter().find(|b| &b.backend_id == backend_id))
-                        .unwrap();
-
+        // Backends are diffed per cluster. Inside a cluster a backend is
+        // identified by (backend_id, address) — the same identity `add_backend`
+        // (an upsert) and `remove_backend` use — so two backends sharing a
+        // backend_id at different addresses are both carried over.
+        let no_backends: Vec<Backend> = Vec::new();
+        for (cluster_id, res) in diff_map(self.backends.iter(), other.backends.iter()) {
+            let mine = match res {
+                DiffResult::Added => &no_backends,
+                _ => self.backends.get(cluster_id).unwrap_or(&no_backends),
+            };
+            let theirs = match res {
+                DiffResult::Removed => &no_backends,
+                _ => other.backends.get(cluster_id).unwrap_or(&no_backends),
+            };
+            for backend in mine {
+                let kept = theirs
+                    .iter()
+                    .any(|b| b.backend_id == backend.backend_id && b.address == backend.address);
+                if !kept {
                     v.push(
                         RequestType::RemoveBackend(RemoveBackend {
                             cluster_id: backend.cluster_id.clone(),
@@ -2054,27 +2047,11 @@ impl ConfigState {
                         .into(),
                     );
                 }
-                DiffResult::Changed => {
-                    let backend = self
-                        .backends
-                        .get(cluster_id)
-                        .and_then(|v| v.iter().find(|b| &b.backend_id == backend_id))
-                        .unwrap();
-
-                    v.push(
-                        RequestType::RemoveBackend(RemoveBackend {
-                            cluster_id: backend.cluster_id.clone(),
-                            backend_id: backend.backend_id.clone(),
-                            address: SocketAddress::from(backend.address),
-                        })
-                        .into(),
-                    );
-
-                    let backend = other
-                        .backends
-                        .get(cluster_id)
-                        .and_then(|v| v.iter().find(|b| &b.backend_id == backend_id))
-                        .unwrap();
+            }
+            for backend in theirs {
+                // new backend, or same (backend_id, address) with other
+                // attributes: AddBackend replaces the prior copy
+                if !mine.contains(backend) {
                     v.push(RequestType::AddBackend(backend.clone().to_add_backend()).into());
                 }
             }
